@@ -41,6 +41,11 @@ CHECKS.update({
  "C19": ("model_checking", "NewPolicy.tla (one label per visible simple command of newpolicy.sh, 2 instances, good/bad commits with and without author e-mail, kill at every label) is model-checked for CurrentValid, OneAtATime, NumbersGrow, OnlyCompiled and Recovered; the UNMODIFIED bin/newpolicy.sh is run in scratch worlds (real git, stub netspoc/mail) under a BASH_ENV DEBUG-trap tracer that snapshots the policy database before EVERY simple command and kills the script's process group at the k-th command for every k (plus double kills and two simultaneous instances), followed by an undisturbed run; NewPolicyTrace.tla evaluates the properties on the observed snapshots.", "external commands are atomic (kill between simple commands); stub compiler; 9 history classes", "TLC model check of NewPolicy.tla + trace validation of DEBUG-trap traces of the unmodified script (kill at every command)", "§7 C19"),
 })
 
+CHECKS.update({
+ "C05": ("model_checking", "TLC enumerates pairs of Linux states (route sets with several routes per destination, default route switches; rulesets of table filter / mangle with policies, user chains and one abstract rule per option family of the normaliser). Every abstract ruleset is rendered in TWO spellings (Netspoc spelling for the target, iptables-save / `ip route show` spelling for the device); the real planner's `ip route add/del` commands and the emitted iptables-restore file are executed by Linux.tla; LinuxTrace.tla checks: final routes and ruleset equal the target, a difference of rulesets is reported iff the abstract rulesets differ, the kernel-spelled print of the final state compares as unchanged.", DEV_NOTE + "; the spelling tables of vlib/linux.py are an explicit, reviewed part of the trusted base", DEV_TECH, "§7 C05"),
+ "C18": ("model_checking", "Merge.tla defines Admissible(result, v4, v6, rawPre, rawApp) (completeness, per-part order, raw before Netspoc, APPEND between the last permitting Netspoc entry and the trailing denies). TLC enumerates all combinations of the parts (incl. no permit line, empty parts) for ASA ACLs (v4+v6+raw), IOS ACLs and Linux chains; the script of the real planner on the EMPTY device is executed by the device specification and the resulting ACL / chain is checked with Admissible; 9 unmergeable raw files (unknown command, unbound / doubly bound object, name clash, unused group) must end in an error or a warning naming the object.", DEV_NOTE + "; PAN-OS and NSX merges are not covered yet", DEV_TECH, "§7 C18"),
+})
+
 NA_REASONS = {
  "C20": "quantifies over mutated bytes fed to parsers with oracle 'process did not panic': no state machine to specify; needs mutation fuzzing, a different technique (DESIGN.md §8)",
 }
